@@ -1,5 +1,6 @@
-(* Deadlock-freedom (C05, progress) for flat scenarios: in a quiet state (nothing in flight, every simulator started)
-   in which some simulator is not done, some simulator can begin a step.  The witness is the simulator owning the
+(* Deadlock-freedom (C05, progress) for scenarios whose simulators all have the same depth D and whose delays keep all D
+   tiers (flat scenarios: D = 1; all simulators in one group: D = 2, weak connections raise the second tier): in a quiet
+   state (nothing in flight, every simulator started) in which some simulator is not done, some simulator can begin a step.  The witness is the simulator owning the
    globally smallest queued time, ties broken by a rank that decreases along zero-delay connections. *)
 From Coq Require Import ZArith List Bool Arith Lia.
 Import ListNotations.
@@ -16,12 +17,14 @@ Qed.
 Section Progress.
 Variable st : static.
 Variable rank : nat -> nat.
-Hypothesis Hflat : forall i, (i < nsims st)%nat -> depth st i = 1%nat.
+Variable D : nat.
+Hypothesis HD1 : (1 <= D)%nat.
+Hypothesis Hflat : forall i, (i < nsims st)%nat -> depth st i = D.
 Hypothesis Hanc : forall i a d, (i < nsims st)%nat -> In (a,d) (anc st i) -> (a < nsims st)%nat /\
-   ((forall c, length c = 1%nat -> tlt c (act c d) = true) \/ ((forall c, length c = 1%nat -> act c d = c) /\ (rank a < rank i)%nat)).
+   ((forall c, length c = D -> tlt c (act c d) = true) \/ ((forall c, length c = D -> act c d = c) /\ (rank a < rank i)%nat)).
 Hypothesis Hindel : forall j k d, (j < nsims st)%nat -> In (k,d) (indel st j) -> (k < nsims st)%nat /\
-   ((forall c, length c = 1%nat -> tlt c (act c d) = true) \/ ((forall c, length c = 1%nat -> act c d = c) /\ (rank k < rank j)%nat)).
-Hypothesis Hsucc : forall i j d, (i < nsims st)%nat -> In (j,d) (succ_lazy st i) \/ In (j,d) (succ_wait st i) -> (j < nsims st)%nat /\ forall c, length c = 1%nat -> act c d = c.
+   ((forall c, length c = D -> tlt c (act c d) = true) \/ ((forall c, length c = D -> act c d = c) /\ (rank k < rank j)%nat)).
+Hypothesis Hsucc : forall i j d, (i < nsims st)%nat -> In (j,d) (succ_lazy st i) \/ In (j,d) (succ_wait st i) -> (j < nsims st)%nat /\ forall c, length c = D -> act c d = c.
 
 Variable s : state.
 Hypothesis HI : Inv st s.
@@ -68,13 +71,13 @@ Proof.
 Qed.
 
 (* shapes in the flat case *)
-Lemma len1 i c : (i < nsims st)%nat -> In c (nexts (s i)) -> length c = 1%nat.
+Lemma len1 i c : (i < nsims st)%nat -> In c (nexts (s i)) -> length c = D.
 Proof. intros Hi H. destruct HI as [HS _]. rewrite <- (Hflat i Hi). apply (HS i). unfold cands. apply in_app_iff. right; exact H. Qed.
 Lemma cur_none i : (i < nsims st)%nat -> cur (s i) = None.
 Proof. intros Hi. apply (aux_cur _ _ HA). apply HQ; exact Hi. Qed.
 
 (* every candidate of the minimum-progress computation of simulator i is >= tau when tau is a global lower bound of all queues *)
-Lemma np_ge tau i : (i < nsims st)%nat -> length tau = 1%nat ->
+Lemma np_ge tau i : (i < nsims st)%nat -> length tau = D ->
   (forall j c, In (j,c) allc -> tle tau c = true) -> tle tau (until_t st i) = true ->
   tle tau (new_progress st s i) = true.
 Proof.
@@ -103,14 +106,14 @@ Proof.
   - (* some queue is non-empty: (a,tau) is a best candidate *)
     apply argmin_spec in Eam as [Hin Hbest].
     apply allc_in in Hin as [Ha Htau].
-    assert (Hl : length tau = 1%nat) by (apply (len1 a _ Ha); exact Htau).
+    assert (Hl : length tau = D) by (apply (len1 a _ Ha); exact Htau).
     assert (Hmin : forall j c, In (j,c) allc -> tle tau c = true).
     { intros j c Hjc. specialize (Hbest _ Hjc). unfold better in Hbest. simpl in Hbest.
       apply orb_false_iff in Hbest as [H _]. unfold tle. rewrite H. reflexivity. }
     assert (Hu : forall i, (i < nsims st)%nat -> tle tau (until_t st i) = true).
-    { intros i Hi. apply tlt_tle. unfold until_t, world_time. rewrite (Hflat i Hi). simpl.
-      destruct tau as [|x [|? ?]]; simpl in Hl; try discriminate. simpl.
-      pose proof (aux_bound _ _ HA a [x] Ha Htau) as Hb. simpl in Hb. apply Z.ltb_lt in Hb. rewrite Hb. reflexivity. }
+    { intros i Hi. apply tlt_tle. unfold until_t, world_time.
+      pose proof (aux_bound _ _ HA a tau Ha Htau) as Hb.
+      destruct tau as [|x r]; [simpl in Hl; lia|]. simpl in Hb. simpl. apply Z.ltb_lt in Hb. rewrite Hb. reflexivity. }
     assert (Hge : forall i, (i < nsims st)%nat -> tle tau (prog (s i)) = true).
     { intros i Hi. rewrite (HE i Hi). apply np_ge; auto. }
     (* prog a = tau *)
@@ -135,7 +138,7 @@ Proof.
       subst t. unfold deps_ok. apply andb_true_iff; split; [apply andb_true_iff; split|].
       * (* input predecessors *)
         apply forallb_forall. intros [k d] Hk. destruct (Hindel _ _ _ Ha Hk) as [Hkn Hd].
-        assert (Hlk : length (prog (s k)) = 1%nat) by (destruct HI as [HS _]; rewrite <- (Hflat k Hkn); apply (proj1 (HS k))).
+        assert (Hlk : length (prog (s k)) = D) by (destruct HI as [HS _]; rewrite <- (Hflat k Hkn); apply (proj1 (HS k))).
         destruct Hd as [Hd|[Hd Hr]].
         -- eapply tle_tlt_trans'; [apply Hge; exact Hkn|apply Hd; exact Hlk].
         -- rewrite Hd by exact Hlk.
@@ -149,7 +152,7 @@ Proof.
                  destruct (Hanc _ _ _ Hkn Ha') as [Han Hd'].
                  destruct Hc as [Hc|Hc]; [|rewrite (cur_none a' Han) in Hc; discriminate].
                  apply tmin_spec in Hc as [Hc _].
-                 assert (Hlc : length c = 1%nat) by (apply (len1 a' _ Han); exact Hc).
+                 assert (Hlc : length c = D) by (apply (len1 a' _ Han); exact Hc).
                  assert (Htc : tle tau c = true) by (apply (Hmin a'); apply allc_in; auto).
                  destruct Hd' as [Hd'|[Hd' Hr']].
                  --- specialize (Hd' c Hlc). rewrite <- Ec in Hd'. unfold tle in Htc. rewrite Hd' in Htc. discriminate.
@@ -166,7 +169,7 @@ Proof.
                  apply Nat.ltb_ge in Hb. lia.
               ** rewrite (cur_none k Hkn) in Hx. destruct Hx.
               ** (* until = tau: impossible *)
-                 unfold until_t, world_time in Hx. rewrite (Hflat k Hkn) in Hx. simpl in Hx.
+                 unfold until_t, world_time in Hx.
                  pose proof (aux_bound _ _ HA a tau Ha Htau) as Hb. rewrite <- Hx in Hb. simpl in Hb. lia.
            ++ exfalso. specialize (Hge k Hkn). unfold tle in Hge. rewrite H in Hge. discriminate.
       * (* async successors *)
